@@ -66,6 +66,35 @@ def _clause(eng, con, clause, fr, extra):
     return eng.eval_clause(clause, con.module, b)
 
 
+class LoopEffects:
+    """marker in the ghost effect log: 'the iterations of a loop (other than the one being executed) emitted this
+    effect an unknown number of times' - `some` is an unconstrained Bool (whether at least one was emitted)"""
+
+    def __init__(self, some):
+        self.some = some
+
+    def __iter__(self):
+        raise Unsupported('arguments of an effect emitted inside a loop over a symbolic collection')
+
+
+def declared_effects(con, k_ord):
+    return tuple(con.attrs.get(f'loop{k_ord}_effects', ())) if con is not None else ()
+
+
+def mark_loop_effects(eng, con, k_ord):
+    """after the loop havoc: the other iterations may have emitted the effects declared in loop<K>_effects"""
+    for nme in declared_effects(con, k_ord):
+        eng.effects.append((nme, LoopEffects(eng.run.fresh('loopfx', B))))
+
+
+def check_loop_effects(eng, con, k_ord, start, tag, line):
+    """the body of the arbitrary iteration only emitted declared effects (obligation loop-effects:)"""
+    extra = sorted({nme for nme, _ in eng.effects[start:]} - set(declared_effects(con, k_ord)))
+    if extra:
+        eng.run.oblige(f'loop-effects:{tag}', 'inv', False, line,
+                       detail=f'loop body emits {extra}: declare them in loop{k_ord}_effects')
+
+
 def symbolic_for(eng, s, fr, it):
     spec, k_ord, con = find_spec(eng, fr, s)
     if spec is None or 'inv' not in spec:
@@ -109,6 +138,8 @@ def symbolic_for(eng, s, fr, it):
     else:
         eng.heap.havoc(eng.allowed_fn(None))
     havoc_locals(eng, fr, assigned_names(s.body) | assigned_names([s.target]))
+    mark_loop_effects(eng, con, k_ord)
+    fx_start = len(eng.effects)
     if is_list:
         k = eng.run.fresh('k', I)
         eng.run.assume(z3.And(0 <= k, k <= n))
@@ -145,7 +176,10 @@ def symbolic_for(eng, s, fr, it):
             ghost_next = {'seen': SymSet(z3.Store(seen, e, True), keyty), 'loop_old': loop_old}
         eng.bind_target(s.target, elem, fr, s.lineno)
         try:
-            eng.exec_block(s.body, fr)
+            try:
+                eng.exec_block(s.body, fr)
+            finally:
+                check_loop_effects(eng, con, k_ord, fx_start, tag, s.lineno)
         except BreakEx:
             return     # leaves the loop from an arbitrary iteration satisfying the invariant
         except ContinueEx:
@@ -183,6 +217,8 @@ def symbolic_while(eng, s, fr):
     eng.run.oblige(f'loop-init:{tag}', 'inv', _clause(eng, con, spec['inv'], fr, ghost), s.lineno)
     eng.heap.havoc(eng.allowed_fn(None))
     havoc_locals(eng, fr, assigned_names(s.body))
+    mark_loop_effects(eng, con, k_ord)
+    fx_start = len(eng.effects)
     eng.run.assume(_clause(eng, con, spec['inv'], fr, ghost))
     measure0 = None
     if 'decreases' in spec:
@@ -192,7 +228,10 @@ def symbolic_while(eng, s, fr):
         c = eng.run.decide(c)
     if c:
         try:
-            eng.exec_block(s.body, fr)
+            try:
+                eng.exec_block(s.body, fr)
+            finally:
+                check_loop_effects(eng, con, k_ord, fx_start, tag, s.lineno)
         except BreakEx:
             return
         except ContinueEx:
